@@ -22,6 +22,7 @@ mod calsubj;
 mod common;
 mod containers;
 mod lockfree;
+mod selftest;
 
 use arena::Arena;
 use common::*;
@@ -268,6 +269,8 @@ macro_rules! subjects {
             "calbump" => $m::<calsubj::CalBump>($($args),*),
             "calpoolgrow" => $m::<calsubj::CalPoolGrowBack>($($args),*),
             "calbumpgrow" => $m::<calsubj::CalBumpGrowBack>($($args),*),
+            "selftest-fault" => $m::<selftest::AbsFault>($($args),*),
+            "selftest-diverge" => $m::<selftest::AbsDiverge>($($args),*),
             s => { eprintln!("unknown subject {}", s); 2 }
         }
     };
